@@ -207,7 +207,7 @@ pub fn run(tier: Tier) -> i32 {
     let mut run = Run::new("C03", tier, "exploration");
     let p = ConfigDiff;
     run.replays("config-differential", &p);
-    run.generated("config-differential", &p, tier.pick(100_000, 4_000_000));
+    run.generated("config-differential", &p, tier.pick(200_000, 4_000_000));
     let h = super::huge::HugeDiff;
     run.replays("huge-records", &h);
     run.generated("huge-records", &h, tier.pick(4, 40));
